@@ -130,50 +130,35 @@ Proof.
   apply andb_true_iff in H as [H1 H2]. rewrite !nonempty_opt_eq by assumption. reflexivity.
 Qed.
 
-Lemma has_userset_of_false s x t :
-  has_userset_of s x = false -> In t s ->
-  beqb (u_type (t_user t)) (u_type x) = true -> beqb (u_id (t_user t)) (u_id x) = true ->
-  beqb (u_rel (t_user t)) [] = true.
-Proof.
-  intros H Ht H1 H2. unfold has_userset_of in H.
-  pose proof (existsb_false_forall _ _ H t Ht) as Hf. simpl in Hf. rewrite H1, H2 in Hf. simpl in Hf.
-  apply negb_false_iff in Hf. exact Hf.
-Qed.
-
-(* the three optional predicates of a user "type:id[#rel]" against exact equality *)
-Lemma sq_user_parts_spec s x t :
+(* the predicates of a full user "type:id[#rel]" against exact equality (a279b76) *)
+Lemma sq_user_parts_spec x t :
   nonempty (u_type x) = true -> nonempty (u_id x) = true ->
-  (beqb (u_rel x) [] && has_userset_of s x) = false -> In t s ->
   sq_opt_eq (u_type x) (u_type (t_user t)) && sq_opt_eq (u_id x) (u_id (t_user t)) &&
-  sq_opt_eq (u_rel x) (u_rel (t_user t)) = user_eqb (t_user t) x.
+  (if negb (beqb (u_rel x) []) || negb (beqb (u_id x) [])
+   then sq_eq (u_rel x) (u_rel (t_user t)) else true) = user_eqb (t_user t) x.
 Proof.
-  intros Ht Hi Hflag Hin. rewrite !nonempty_opt_eq by assumption. unfold user_eqb, sq_opt_eq.
-  destruct (beqb (u_rel x) []) eqn:Er; [|reflexivity]. simpl in Hflag. simpl.
-  apply beqb_eq in Er. rewrite Er.
-  destruct (beqb (u_type (t_user t)) (u_type x)) eqn:E1; [|reflexivity].
-  destruct (beqb (u_id (t_user t)) (u_id x)) eqn:E2; [|reflexivity]. simpl.
-  symmetry. eapply has_userset_of_false; eauto.
+  intros Ht Hi. rewrite !nonempty_opt_eq by assumption. unfold nonempty in Hi. rewrite Hi, orb_true_r.
+  reflexivity.
 Qed.
 
-Lemma sql_read_eq_spec_partial s f :
-  wf_read_filter f = true -> flag_read_relationless_user s f = false ->
-  sql_read s f = read_spec s f.
+Lemma sql_read_eq_spec s f :
+  wf_read_filter f = true -> sql_read s f = read_spec s f.
 Proof.
-  intros Hwf Hflag. unfold sql_read, read_spec. f_equal. apply filter_ext_in. intros t Hin.
+  intros Hwf. unfold sql_read, read_spec. f_equal. apply filter_ext. intros t.
   unfold wf_read_filter in Hwf. apply andb_true_iff in Hwf as [Ho Hu].
   unfold sql_read_where, read_pred. rewrite (sq_obj_spec _ _ Ho).
   f_equal. f_equal.
-  unfold flag_read_relationless_user in Hflag. unfold sq_read_user, usr_ok.
+  unfold sq_read_user, usr_ok.
   destruct (rf_usr f) as [|ty|x]; [reflexivity|apply nonempty_opt_eq; exact Hu|].
-  simpl in Hu. apply andb_true_iff in Hu as [H1 H2]. eapply sq_user_parts_spec; eauto.
+  simpl in Hu. apply andb_true_iff in Hu as [H1 H2]. apply sq_user_parts_spec; assumption.
 Qed.
 
 Lemma memory_eq_sql_read s f :
   wf_read_filter f = true ->
-  flag_read_all_ignores_conditions s f = false -> flag_read_relationless_user s f = false ->
+  flag_read_all_ignores_conditions s f = false ->
   Permutation (memory_read s f) (sql_read s f).
 Proof.
-  intros H1 H2 H3. rewrite memory_read_eq_spec_partial, sql_read_eq_spec_partial by assumption.
+  intros H1 H2. rewrite memory_read_eq_spec_partial, sql_read_eq_spec by assumption.
   apply Permutation_refl.
 Qed.
 
@@ -205,13 +190,11 @@ Proof.
   apply not_perm_by_length. vm_compute. discriminate.
 Qed.
 
-Lemma sql_read_eq_spec_refuted :
-  exists s f, wf_store s = true /\ keys_unique s = true /\ wf_read_filter f = true /\
-              ~ Permutation (sql_read s f) (read_spec s f).
-Proof.
-  exists w_store, (mkRF OAny [] (UExact (mkUser b_group b_1 [])) []). repeat split; try reflexivity.
-  apply not_perm_by_length. vm_compute. discriminate.
-Qed.
+(* historical (before a279b76 sqlite's read put no predicate on user_relation for "type:id"): the
+   old witness, on which the sqlite model returned the userset group:1#member as well *)
+Example sql_read_relationless_user_regression :
+  sql_read w_store (mkRF OAny [] (UExact (mkUser b_group b_1 [])) []) = [w_t3].
+Proof. vm_compute. reflexivity. Qed.
 
 (* ---- ReadUserTuple ----------------------------------------------------------------------- *)
 
@@ -492,27 +475,16 @@ Proof.
   apply not_perm_by_length. vm_compute. discriminate.
 Qed.
 
-Lemma sq_rswu_user_spec s us t :
-  existsb (fun u => beqb (u_rel u) [] && has_userset_of s u) us = false -> In t s ->
+Lemma sq_rswu_user_spec us t :
   existsb (fun u => sq_rswu_user u t) us = existsb (user_eqb (t_user t)) us.
-Proof.
-  intros H Hin. induction us as [|u us IH]; simpl in *; [reflexivity|].
-  apply orb_false_iff in H as [H1 H2]. rewrite (IH H2). f_equal.
-  unfold sq_rswu_user, sq_eq, sq_opt_eq, user_eqb.
-  destruct (beqb (u_type (t_user t)) (u_type u)) eqn:E1; [|reflexivity].
-  destruct (beqb (u_id (t_user t)) (u_id u)) eqn:E2; [|reflexivity]. simpl.
-  destruct (beqb (u_rel u) []) eqn:Er; [|reflexivity]. simpl in *.
-  apply beqb_eq in Er. rewrite Er. symmetry. eapply has_userset_of_false; eauto.
-Qed.
+Proof. reflexivity. Qed.
 
 Lemma sql_rswu_eq_spec_partial s f :
-  flag_rswu_relationless_user s f = false -> flag_rswu_empty_object_ids f = false ->
-  sql_rswu s f = rswu_spec s f.
+  flag_rswu_empty_object_ids f = false -> sql_rswu s f = rswu_spec s f.
 Proof.
-  intros Hr He. unfold sql_rswu, rswu_spec. f_equal. apply filter_ext_in. intros t Hin.
+  intros He. unfold sql_rswu, rswu_spec. f_equal. apply filter_ext. intros t.
   unfold sql_rswu_where, rswu_pred, sq_eq.
-  unfold sq_or. rewrite existsb_map_fun.
-  unfold flag_rswu_relationless_user in Hr. rewrite (sq_rswu_user_spec _ _ _ Hr Hin).
+  unfold sq_or. rewrite existsb_map_fun, sq_rswu_user_spec.
   assert (Ho : sq_rswu_oids (sf_oids f) t = oids_ok (sf_oids f) t).
   { unfold flag_rswu_empty_object_ids in He. unfold sq_rswu_oids, oids_ok, bmem.
     destruct (sf_oids f) as [[|x l]|]; try reflexivity. discriminate. }
@@ -523,19 +495,14 @@ Proof.
   rewrite andb_true_r. apply andb_comm.
 Qed.
 
-Lemma sql_rswu_eq_spec_refuted_relationless :
-  exists s f, wf_store s = true /\ keys_unique s = true /\
-              flag_rswu_empty_object_ids f = false /\
-              ~ Permutation (sql_rswu s f) (rswu_spec s f).
-Proof.
-  exists w_store, (mkSF b_doc b_viewer [mkUser b_group b_1 []] None []).
-  repeat split; try reflexivity.
-  apply not_perm_by_length. vm_compute. discriminate.
-Qed.
+(* historical (before a279b76 a user filter without relation also matched type:id#rel): the old
+   witness, on which the sqlite model returned doc:2#viewer@group:1#member as well *)
+Example sql_rswu_relationless_user_regression :
+  sql_rswu w_store (mkSF b_doc b_viewer [mkUser b_group b_1 []] None []) = [w_t3].
+Proof. vm_compute. reflexivity. Qed.
 
 Lemma sql_rswu_eq_spec_refuted_empty_object_ids :
   exists s f, wf_store s = true /\ keys_unique s = true /\
-              flag_rswu_relationless_user s f = false /\
               ~ Permutation (sql_rswu s f) (rswu_spec s f).
 Proof.
   exists w_store, (mkSF b_doc b_viewer [mkUser b_user b_a []] (Some []) []).
@@ -544,11 +511,10 @@ Proof.
 Qed.
 
 Lemma memory_eq_sql_rswu s f :
-  flag_rswu_duplicate_user_filter f = false ->
-  flag_rswu_relationless_user s f = false -> flag_rswu_empty_object_ids f = false ->
+  flag_rswu_duplicate_user_filter f = false -> flag_rswu_empty_object_ids f = false ->
   Permutation (memory_rswu s f) (sql_rswu s f).
 Proof.
-  intros Hd Hr He. rewrite sql_rswu_eq_spec_partial by assumption.
+  intros Hd He. rewrite sql_rswu_eq_spec_partial by assumption.
   apply memory_rswu_eq_spec_partial. exact Hd.
 Qed.
 
@@ -563,7 +529,7 @@ Proof.
     apply not_perm_by_length. vm_compute. discriminate.
   - exists w_store, (mkSF b_doc b_viewer [mkUser b_user b_a []] (Some []) []).
     apply not_perm_by_length. vm_compute. discriminate.
-  - exists w_store, (mkRF OAny [] (UExact (mkUser b_group b_1 [])) []).
+  - exists w_store, (mkRF OAny [] UAny [[]]).
     apply not_perm_by_length. vm_compute. discriminate.
 Qed.
 
